@@ -47,6 +47,28 @@ def classify_leaf(leaf):
     return "handle", crate[-1]
 
 
+def _reaches_upvar(P, body, term, sb, upidx, depth=0):
+    """does `term` (in `body`, a descendant of closure sb or sb itself) denote upvar #upidx of sb?"""
+    rk, rd, path = term
+    if body.id == sb.id:
+        return rk == "upvar" and rd == upidx
+    if rk != "upvar" or depth > 6:
+        return False
+    parent, provs = P.upvar_origin(body, rd)
+    if parent is None:
+        return False
+    return any(_reaches_upvar(P, parent, t, sb, upidx, depth + 1) for t in provs)
+
+
+def _used_as_scheduler(P, sb, upidx):
+    for b in [sb] + P.descendants(sb):
+        for c in b.calls:
+            if c.path in (ISCHED + "::post", ISCHED + "::abort") and c.args:
+                if any(_reaches_upvar(P, b, t, sb, upidx) for t in b.operand_prov(c.args[0])):
+                    return True
+    return False
+
+
 def k_fresh_state(P, E, scope=None):
     r = RuleResult("K-fresh-state", "the closure given to Observable::create in a cold constructor "
                                     "captures no mutable per-subscription cell allocated outside it")
@@ -73,6 +95,11 @@ def k_fresh_state(P, E, scope=None):
                 kind, what = classify_leaf(leaf)
                 if kind in ("cell", "handle", "unknown"):
                     bad.append((u.get("name") or str(u["idx"]), kind, what, u["ty"]["s"]))
+            # an opaque (type-parameter) capture that this subscription uses as a *scheduler*
+            # (post/abort are called on it) is a stateful instance shared between subscriptions
+            if any(classify_leaf(l)[0] == "opaque" for l in u["leaves"]) or ty_peel(u["ty"]).get("k") == "param":
+                if _used_as_scheduler(P, sb, u["idx"]):
+                    bad.append((u.get("name") or str(u["idx"]), "scheduler instance", u["ty"]["s"], u["ty"]["s"]))
         r.instance((rootn, sb.nid), len(sb.upvars) > 0,
                    "captures: %s" % ", ".join("%s: %s" % (u.get("name"), u["ty"]["s"]) for u in sb.upvars))
         seen = set()
